@@ -106,7 +106,17 @@ func genC12(t *rapid.T) C12Case {
 		ops = append(ops, "prune", "ingest", "verify")
 	}
 	n := rapid.IntRange(2, lim.maxBlocks).Draw(t, "nsteps")
+	// 1 script in 12 contains one block that adds thousands of leaves (a long critical section; later
+	// queries then name hundreds of hashes)
+	bigAt := -1
+	if rapid.IntRange(0, 11).Draw(t, "bigblock") == 0 {
+		bigAt = rapid.IntRange(0, n-1).Draw(t, "bigat")
+	}
 	for i := 0; i < n; i++ {
+		if i == bigAt {
+			c.Steps = append(c.Steps, g.addOnly(rapid.IntRange(1100, 3200).Draw(t, "bigadd")))
+			continue
+		}
 		c.Steps = append(c.Steps, g.next(t, lim, ops))
 	}
 	c.Steps = c12Normalize(c.Cfg, c.Steps)
